@@ -34,6 +34,11 @@ CLAIMED = {
    text="Unbounded Coq theorems, for every hash pair with 16-byte digests (instantiated with an executable Gallina MD5/HMAC-MD5 validated on RFC vectors): for every exported session key and every list of messages the tokens of successive gss_wrapex calls are byte-identical to MS-NLMP SEAL/MAC with the derived client keys, cipher state and sequence number threaded; for every interleaved schedule of messages in both directions a conforming peer (own counter, 16-byte signature compare) recovers what the client wraps and gss_unwrapex recovers what the peer seals; the exact acceptance condition of gss_unwrapex; unconditional rejection (error, no panic, no payload) of any change of the Version or Checksum bytes and of inputs shorter than 16 bytes; an altered SeqNum/ciphertext is accepted iff the 8-byte HMAC prefixes of two provably different signed strings collide (rejection under that explicit no-collision premise); the client keeps no receive counter (stated as a theorem). Tied to /repo on every run: sessions of 0..8 messages of lengths {0,1,15,16,17,255,4096,4097} in both directions under random keys, compared byte for byte with the extracted model (debug and release) and with an independent python MS-NLMP implementation; every single-bit flip of sealed tokens (exhaustive up to 271-byte tokens; all 32896 bits of 4112-byte tokens in the thorough tier), every truncation, extensions, replay, reordering, reflection and wrong-key tokens must be rejected with an error.",
    design_ref="DESIGN.md section 6, C16",
    note="Trusted: Coq kernel (+vm_compute for test vectors and concrete examples), extraction (ExtrOcamlBasic), OCaml driver, Rust harness + cfg(rdp_rs_verif) hooks in ntlm.rs, python oracle gen/nlmp.py; crates md-5/md4/hmac modelled by Md5.v/Md4.v/Hmac.v (validated on RFC 1320/1321/2202 vectors and sampled), not verified; rejection of SeqNum/ciphertext alterations is conditional on HMAC-MD5 64-bit prefix collision freedom (a premise of the theorem). One defect fixed: seq_num+1 overflow at message 2^32."),
+ "C19": dict(
+   technique="Coq proof (closed form of the per-row bounds test under both profiles + loop invariant by induction) of model vs RefBlit spec; model tied to /repo by differential correspondence over the GUI binary's source with canary/poison instrumentation",
+   text="Unbounded Coq theorems: for every build profile, window buffer, window width (any usize), destination rectangle (inverted, outside, 65535-sized), image stride and decoded image of any length, the model of fast_bitmap_transfer returns Ok or Err, never panics/spins, and no raw copy leaves the image or the window buffer; for a rectangle inside the window with enough image rows it succeeds and the buffer equals the exact 2-D copy and is unchanged elsewhere; on Err exactly the first k complete rows were copied (InvalidSize), nothing outside the rows' footprint ever changes; inverted rectangles and decoder errors leave the buffer untouched. The model (coq/Blit.v, the code as repaired by two fix commits) is tied to /repo on every run by executing the extracted model and the real function (src/bin/mstsc-rs.rs included as a module in harness-gui, debug and release) on every rectangle with coordinates in -1..9 over windows up to 8x8 with images equal/smaller/larger than the rectangle, absurd widths, 16-bit extremes and random larger windows, with canary regions and poisoned surroundings exposing out-of-bounds writes and reads, and by an independent Python exact-copy oracle.",
+   design_ref="DESIGN.md section 6, C19",
+   note="Trusted: Coq kernel, extraction (ExtrOcamlBasic), OCaml driver, harness-gui (canaries, padding allocator, 1 cfg hook). Not modelled: transmute_vec's re-typing of the Vec<u8> allocation (layout UB), only its len/4 little-endian view; BitmapEvent::decompress (C08/C09) - cases carry the decoded image. Vec length < 2^62 is a hypothesis."),
 }
 
 NOT_YET = {}
